@@ -292,9 +292,9 @@ def tlc_sim(ctx, module, cfg, out_traces, num, depth, cfgobj=None, timeout=900, 
     return {"traces": ntr, "steps": nst}
 
 
-def replay_traces(ctx, model, traces, timeout=3600):
+def replay_traces(ctx, model, traces, timeout=3600, maxfail=500):
     out = ctx.path("replaytr_%s_%d.json" % (model, len(ctx.cov["replays"])))
-    p = vh(["replay-traces", model, traces, "--out", out], timeout=timeout)
+    p = vh(["replay-traces", model, traces, "--out", out, "--maxfail", maxfail], timeout=timeout)
     if p.returncode != 0 or not os.path.exists(out):
         sys.stdout.write(p.stdout[-3000:] + p.stderr[-3000:])
         raise ToolError("harness replay-traces failed for %s (rc=%s)" % (model, p.returncode))
@@ -313,18 +313,18 @@ def replay_traces(ctx, model, traces, timeout=3600):
 
 
 def graph_leg(ctx, module, model, gen_cfg, cfgobj, walks, walklen, allhist, sim_cfg=None, sim_num=0, sim_depth=0,
-              timeout=1500, sim_cfgobj=None):
+              timeout=1500, sim_cfgobj=None, maxfail=500):
     """The standard L2 leg: dump + replay the bounded graph, then (optionally) spec-simulated deep behaviours."""
     edges = ctx.path(gen_cfg + ".edges")
     g = tlc_gen(ctx, module, gen_cfg, edges, cfgobj=cfgobj, timeout=timeout)
-    r = replay(ctx, model, edges, walks=walks, walklen=walklen, allhist=allhist)
+    r = replay(ctx, model, edges, walks=walks, walklen=walklen, allhist=allhist, maxfail=maxfail)
     log("  %s: %d edges / %d states; %d behaviours, %d steps, %d failures" % (
         gen_cfg, g["edges"], g["states"], r["behaviours"], r["steps"], r["failures_n"]))
     os.remove(edges)
     if sim_cfg and sim_num:
         tr = ctx.path(sim_cfg + ".traces")
         s = tlc_sim(ctx, module, sim_cfg, tr, sim_num, sim_depth, cfgobj=sim_cfgobj or cfgobj, timeout=timeout)
-        r2 = replay_traces(ctx, model, tr)
+        r2 = replay_traces(ctx, model, tr, maxfail=maxfail)
         log("  %s: %d simulated behaviours of depth <=%d (%d steps); %d failures" % (
             sim_cfg, s["traces"], sim_depth, s["steps"], r2["failures_n"]))
         os.remove(tr)
@@ -343,10 +343,10 @@ def vh(args, timeout=3600, stdin=None, env=None):
 
 
 def replay(ctx, model, edges, walks=0, walklen=8, allhist=0, histbudget=300000, noedge=False, extra=None,
-           timeout=3600):
+           timeout=3600, maxfail=500):
     out = ctx.path("replay_%s_%d.json" % (model, len(ctx.cov["replays"])))
     a = ["replay", model, edges, "--walks", walks, "--walklen", walklen, "--seed", ctx.seed,
-         "--allhist", allhist, "--histbudget", histbudget, "--out", out]
+         "--allhist", allhist, "--histbudget", histbudget, "--out", out, "--maxfail", maxfail]
     if noedge:
         a += ["--noedge", "1"]
     if extra:
@@ -367,6 +367,9 @@ def replay(ctx, model, edges, walks=0, walklen=8, allhist=0, histbudget=300000, 
     for f in fails:
         ctx.failures.append(f)
     res["failures_n"] = res["failures_total"]
+    if res["failures_total"] > len(fails):
+        ctx.notes.append("%s: %d failing cases, only the first %d were kept for classification" % (model, res["failures_total"], len(fails)))
+        ctx.capped = True
     return res
 
 
